@@ -178,6 +178,11 @@ class QueueingScenario(Scenario):
     def setup(self, env: Env) -> None:
         settings = make_settings(queueing__idle_timeout=IDLE, queueing__exit_timeout=EXIT,
                                  queueing__worker_limit=self.limit)
+        patched = bool(self.params.get('patched'))
+        if patched:
+            # the processor reports a patched version whose echo never comes: the worker's consistency bookkeeping
+            # (deadline = 0.5 s, shorter than the idle timeout and than slow processing) must not change what is processed when
+            settings.persistence.consistency_timeout = 0.5
         resource = resource_of(KEX)
 
         async def processor(*, raw_event: Any, **kwargs: Any) -> None:
@@ -196,7 +201,7 @@ class QueueingScenario(Scenario):
                 env.log('proc-end', seq=seq, uid=uid)
             finally:
                 running.discard(seq)
-            return None
+            return f'never-{seq}' if patched else None
 
         async def main() -> None:
             auth.vault_var.set(make_vault(env.world))
@@ -373,10 +378,11 @@ def run(tier: str, seed: int) -> CheckResult:
     from kv.runner import run_groups
     scs = scenarios(tier)
     small = [sc for sc in scs if len(sc.events) <= 2 or sc.cancel_at is not None or len(sc.events) == 4]
+    patched = [QueueingScenario(**dict(sc.params, patched=True)) for sc in scs if sc.cancel_at is None and (sc.limit is None or len(sc.events) == 4)]
     if tier == 'quick':
-        groups = [('all-streams', scs, 1, 45.0), ('small-streams+cancellation', small, 2, 40.0)]
+        groups = [('all-streams', scs, 1, 45.0), ('small-streams+cancellation', small, 2, 40.0), ('unanswered-patched-versions', patched, 1, 40.0)]
     else:
-        groups = [('all-streams', scs, 2, 600.0), ('small-streams+cancellation', small, 3, 600.0)]
+        groups = [('all-streams', scs, 2, 600.0), ('small-streams+cancellation', small, 3, 600.0), ('unanswered-patched-versions', patched, 2, 400.0)]
     stats, viols, info, nscen = run_groups(groups, seed=seed)
     return CheckResult(
         prop='C01', tier=tier, seed=seed, stats=stats, violations=viols, scenarios=nscen,
